@@ -344,6 +344,7 @@ func main() {
 }
 
 func run(t *vlib.T) {
+	progressFn = t.Progress
 	setupEngine()
 	objs := objects()
 	alpha := alphabet(t.Thorough())
@@ -434,6 +435,8 @@ func run(t *vlib.T) {
 	}
 }
 
+var progressFn = func() {}
+
 func exploreHistory(limit, prefill int, seq []lookup, dev int, objs []obj) *vlib.Outcome {
 	o := &vlib.Outcome{Counters: map[string]int64{}}
 	names := map[string]map[int]bool{}
@@ -455,6 +458,7 @@ func exploreHistory(limit, prefill int, seq []lookup, dev int, objs []obj) *vlib
 	dfs = func(prefix []int, used int) {
 		r := runHistory(limit, prefill, seq, prefix, objs)
 		o.Counters["executions"]++
+		progressFn()
 		o.Counters["lookups_executed"] += int64(r.lookups)
 		o.Counters["distinct_cache_states_per_history_sum"] += int64(len(r.states))
 		if r.viol != "" {
